@@ -68,6 +68,9 @@ def run(ctx):
             law("linear", LPF(tiny * x, BW, order).signal / tiny + 10, Fx + 10)
             events.append({"kind": "shape", "same": bool(type(Fe) is electrical_signal and Fe.len() == n and Fe.noise.shape == (n,))})
             meta.append(("shape", "LPF"))
+            FeH, _H = LPF(e, BW, order, retH=True)          # asking for the response as well changes nothing in the filtered object
+            law("signal-and-noise-filtered-alike", FeH.noise + 10, Fy + 10)
+            law("ndarray-and-container-agree", FeH.signal + 10, Fx + 10)
             if n >= 257 and BW / fs * n >= 8:        # "away from the record edges": the filter's response (about fs/BW samples) fits well inside the record
                 p = np.exp(-((np.arange(n) - (n - 1) / 2) / (0.02 * n)) ** 2)
                 r = LPF(p, BW, order).signal
